@@ -44,12 +44,20 @@ EXPLANATION = (
     "the failure-count / elapsed expressions, both clock sources and the body of retry_info() are re-extracted "
     "(GenRetryAcct). Tie additions: nested stop/retry trees (operators and named combinators mixed, depth <= 4) and next() over "
     "them against the driver; the trees' cap/lo bounds (from the driver) against the real retry loop on random clocks; the real "
-    "InternalContext.retry_info() on arbitrary records and clock readings against Policy.retryInfo. Search: executions per lineage vs budget, retry_info numbers/exceptions, reported attempts and elapsed "
+    "InternalContext.retry_info() on arbitrary records and clock readings against Policy.retryInfo. One failed execution has ONE "
+    "successor (a re-run on a refreshed collect_events snapshot, or a retry, never both) on every result list in which nothing is "
+    "collected after the failure (what the step wrapper returns): proved for the reducer, refuted for the reducer before repair "
+    "fix-C05x (the failure of an execution already scheduled to run again is now skipped), with the whole-run consequence (retry 1 "
+    "delivered twice under stop_after_attempt(2)); retry numbers are never skipped (a record with number k has granted retries 1..k "
+    "behind it). Search: executions per lineage vs budget, retry_info numbers/exceptions, reported attempts and elapsed "
     "vs virtual time actually elapsed, stop_after_delay against really-elapsed time; on waiting steps: retry_number = "
     "failed executions of the invocation so far across suspensions, reported attempts count failures before the wait."
 )
 ASSUMPTIONS = suite.ENGINE_ASSUMPTIONS + [
     "first_attempt_at (adapter.get_now) and failed_at (time.time in the step wrapper) are one clock: true on BasicRuntime since fix 1b4aba5 and on the DBOS adapter (epoch seconds); the harness virtualises both",
+    "runner-level accounting theorems (AcctInv): schedules are admissible (AcctSched) - a finishing worker stamps its failure with the runner's clock (the clock assumption above, both sources pinned by GenRetryAcct), clock readings are positive (epoch seconds; `first_attempt_at or now` treats 0 as unset), other parties put accounted (in practice fresh) attempt records into the mailbox, no step writes a forged WorkflowFailedEvent to the stream",
+    "C05_failed_execution_one_successor: result lists in which no AddCollectedEvent follows a StepWorkerFailed (the step wrapper appends the failure last: GenRetryAcct.wrapperAppendsAfterFailure = []); a background task of a step that calls collect_events after the body raised is outside it",
+    "C05.oracle abstracts the delay rounding of the integral-second runner model (any rounding function); budgets do not depend on it",
 ]
 
 
@@ -61,15 +69,15 @@ def run(env: Env) -> Outcome:
     policy.budget_stream(env, out, env.budget(600, 12000))
     policy.units_stream(env, out, env.budget(150, 3000))
     # nested combinator trees, the theorems' attempt bounds against the real retry loop, Context.retry_info()
-    policy_tree.tree_correspondence(env, out, env.budget(1500, 30000))
-    policy_tree.bounds_stream(env, out, env.budget(400, 8000))
-    policy_tree.retry_info_correspondence(env, out, env.budget(300, 6000))
+    policy_tree.tree_correspondence(env, out, env.budget(1500, 20000))
+    policy_tree.bounds_stream(env, out, env.budget(400, 5000))
+    policy_tree.retry_info_correspondence(env, out, env.budget(300, 4000))
     suite.direct_corr(env, out, env.budget(2000, 40000))
     # + one failed execution has one successor (re-run in place OR retry, c05_fork.mon_fork); the corpus holds the regression case
     suite.live_runs(env, out, env.budget(200, 4000), [c05_fork.mon_fork, monitors.mon_c05], extra_specs=suite.load_corpus("C05"))
     suite.live_runs(env, out, env.budget(300, 6000), [c05_fork.mon_fork, monitors.mon_c05], gen_kwargs={"family": "retry"})
     # collecting steps with retry policies that raise while their collection is incomplete (stale snapshots + failures in one result list)
-    suite.live_runs(env, out, env.budget(60, 1200), [c05_fork.mon_fork, monitors.mon_c05], gen_kwargs={"family": "fanin", "raise_incomplete": True})
+    suite.live_runs(env, out, env.budget(60, 600), [c05_fork.mon_fork, monitors.mon_c05], gen_kwargs={"family": "fanin", "raise_incomplete": True})
     # retried invocations that suspend in wait_for_event (before / after / around the wait), also under a catch_error handler
     suite.live_runs(env, out, env.budget(120, 2400), [monitors.mon_c05], gen_kwargs={"family": "wait_retry"})
     return out
